@@ -147,7 +147,7 @@ Module C06 := PyGql.Properties.C06.
 Definition sk_of (k : scalar_kind) : V.scalar_kind :=
   match k with
   | KInt => V.SkInt | KFloat => V.SkFloat | KString => V.SkString
-  | KID => V.SkID | KBoolean => V.SkBoolean | KAny | KTag => V.SkCustom
+  | KID => V.SkID | KBoolean => V.SkBoolean | KAny | KTag | KOdd => V.SkCustom
   end.
 
 Fixpoint tref_of (t : ity) : V.tref :=
